@@ -1321,7 +1321,11 @@ impl MacroBranch {
         } else {
             shape.indent.block_indent(&config)
         };
-        let new_width = config.max_width() - body_indent.width();
+        // The body does not fit at all when it is indented past `max_width`.
+        let new_width = config
+            .max_width()
+            .checked_sub(body_indent.width())
+            .max_width_error(config.max_width(), self.span)?;
         config.set().max_width(new_width);
 
         // First try to format as items, then as statements.
